@@ -62,6 +62,12 @@ PROPS['C02'] = dict(level='proof', steps=[V('stream'), V('reader'), E3('c02-read
                 text='structural-stream decoding (Flate predictor 10-15 geometry and PNG reconstruction, ASCII85) and startxref discovery are proved for all inputs (Verus); the lexical and cross-reference grammar (nom) is compared with an independent reference writer over every combination of a bounded set of syntactic choices.',
                 note='the nom grammar itself is outside both verifiers: bounded stand-in; flate2 assumed')
 
+PROPS['C08'] = dict(level='other', steps=[E3('c08-orders', needs_seq_bin=True, timeout=3000)],
+                title='Loading is deterministic under every thread schedule',
+                technique='schedule enumeration through hook H1 on the real loader: every merge order (k! for k object streams, k <= 4, thorough 6) of the per-container blocks, plus repeated loads on rayon pools of 1,2,3,4,8,16 threads, all compared with the sequential (no-default-features) build of the same harness',
+                text='bounded stand-in: neither verifier reasons about threads (Kani has no thread support, the loader is rayon/Mutex/closure code outside the Verus subset). What is decided exhaustively is the merge step: for every generated file every order in which the blocks can reach the first-wins merge gives the document of the sequential build. Real schedules and rayon splitting inside one object stream are sampled only.',
+                note='bounded; hook H1 (cfg lopdf_verif) in src/reader.rs + src/verif_hooks.rs; Xref::merge first-wins is proved in unit reader (C07)')
+
 PROPS['C10'] = dict(level='other', steps=[E3('c10-renumber')],
                 title='Renumbering objects preserves the document graph',
                 technique='bounded-exhaustive executable contract: 14 page-tree templates x all id permutations x 3 id sets x starts x bookmark sets, and every reference graph over <= 3 objects with dangling ids, 5 container kinds and 4 trailer shapes, against an independent renaming-discovery oracle',
@@ -107,3 +113,6 @@ PROPS['C15'] = dict(level='proof', steps=[V('cmap'), E3('c15-cmap')],
 NOT_APPLICABLE = {
     'C18': "every clause is about what chrono/jiff/time format and parse; the crate's own code is two string edits, so no contract within either verifier's reach expresses the property",
 }
+
+# commits in /repo that add cfg(lopdf_verif)-guarded hooks (recorded in MANIFEST.hooks.source_commits)
+HOOK_COMMITS = ['1647cde']
